@@ -3,6 +3,9 @@ package props
 import (
 	"context"
 	"fmt"
+	"github.com/cockroachdb/logtags"
+	gogorpc "github.com/gogo/googleapis/google/rpc"
+	gogostatus "github.com/gogo/status"
 	"net"
 	"strconv"
 	"strings"
@@ -57,10 +60,30 @@ type rpcRig struct {
 	cancelMode       bool
 }
 
-func newRig() (*rpcRig, error) {
+// outerServerInterceptor stands for whatever else a service installs around
+// the library's interceptor: it tags the handler's context (request-scoped
+// log tags) and appends a detail of its own to a failing call's status.
+func outerServerInterceptor(ctx context.Context, req interface{}, info *grpc.UnaryServerInfo, handler grpc.UnaryHandler) (interface{}, error) {
+	ctx = logtags.AddTag(logtags.AddTag(ctx, "rpc", "echo"), "n", 3)
+	resp, err := handler(ctx, req)
+	if err != nil {
+		if st, ok := gogostatus.FromError(err); ok {
+			if st2, e2 := st.WithDetails(&gogorpc.RequestInfo{RequestId: "r-1"}); e2 == nil {
+				return resp, st2.Err()
+			}
+		}
+	}
+	return resp, err
+}
+
+func newRig(chained ...bool) (*rpcRig, error) {
 	rig := &rpcRig{srv: &echoServer{pending: map[string]error{}}}
 	lis := memlistener.NewMemoryListener()
-	rig.gs = grpc.NewServer(grpc.UnaryInterceptor(middleware.UnaryServerInterceptor))
+	if len(chained) > 0 && chained[0] {
+		rig.gs = grpc.NewServer(grpc.ChainUnaryInterceptor(outerServerInterceptor, middleware.UnaryServerInterceptor))
+	} else {
+		rig.gs = grpc.NewServer(grpc.UnaryInterceptor(middleware.UnaryServerInterceptor))
+	}
 	egrpc.RegisterEchoerServer(rig.gs, rig.srv)
 	go rig.gs.Serve(lis)
 	raw := func(ctx context.Context, method string, req, reply interface{}, cc *grpc.ClientConn, invoker grpc.UnaryInvoker, opts ...grpc.CallOption) error {
@@ -133,6 +156,13 @@ func runC20(c *core.Ctx, r *core.Result) {
 		return
 	}
 	defer rig.close()
+	plainRig := rig
+	chainRig, err := newRig(true)
+	if err != nil {
+		r.HarnessError("cannot set up the chained in-memory gRPC service: %v", err)
+		return
+	}
+	defer chainRig.close()
 	// nil passes through
 	if got, code, _ := rig.call(nil); got != nil || code != codes.OK {
 		r.Violate("nil-handler-error", fmt.Sprintf("a nil handler error arrives as %v (code %v)", got, code), nil)
@@ -211,14 +241,23 @@ func runC20(c *core.Ctx, r *core.Result) {
 		encoded = false
 		report(r, t, nil, func(t *tm.Term) string {
 			return guarded("C20", func() string {
-				defer func() { rig.cancelMode = false }()
+				defer func() { rig = plainRig; rig.cancelMode = false }()
 				for _, cm := range c20Modes(t) {
+					rig = plainRig
 					rig.cancelMode = cm
 					if m := one(t); m != "" {
 						if cm {
 							return "ctx-done:" + m
 						}
 						return m
+					}
+				}
+				rig.cancelMode = false
+				if t.Depth() <= 2 {
+					// the same behind another server interceptor
+					rig = chainRig
+					if m := one(t); m != "" {
+						return "chained:" + m
 					}
 				}
 				return ""
